@@ -333,8 +333,12 @@ fn scenario_bmca(bound: usize, tally: &'static StdMutex<Tally>) {
 
 fn main() {
     let bound: usize = std::env::args().nth(1).and_then(|s| s.parse().ok()).unwrap_or(2);
+    let only: Option<String> = std::env::args().nth(2);
     let mut out = vec![];
     for (name, f) in [("updates", scenario_updates as fn(usize, &'static StdMutex<Tally>)), ("bmca", scenario_bmca)] {
+        if only.as_deref().map(|o| o != name).unwrap_or(false) {
+            continue;
+        }
         let tally: &'static StdMutex<Tally> = Box::leak(Box::new(StdMutex::new(Tally::default())));
         *NESTED.lock().unwrap() = 0;
         let start = std::time::Instant::now();
